@@ -114,6 +114,17 @@ def build_problem(case):
                       slack=_loguniform(rng, 0.003, 0.6),
                       hd=float(rng.uniform(6.0, 50.0)))
     t['duct_ftf'] = [float(x) for x in ftf]
+    # the input format takes the two flat-to-flat values of a duct in either
+    # order: write some pairs as (outer, inner); the oracle keeps the sorted
+    # list
+    pairs_reversed = []
+    if rng.random() < 0.3:
+        w = list(t['duct_ftf'])
+        for i in range(nd):
+            if rng.random() < 0.6:
+                w[2 * i], w[2 * i + 1] = w[2 * i + 1], w[2 * i]
+                pairs_reversed.append(i)
+        t['duct_ftf'] = w
     t['duct_material'] = 'steel_const'
     # The input reader refuses Cheng-Todreas correlations for a wide wall
     # gap, (F_in + D - sqrt3 (n-1) P)/D > 3.33 (documented correlation
